@@ -166,8 +166,16 @@ class Program:
                     m.classes[n.name] = n
                 elif isinstance(n, (ast.FunctionDef, ast.AsyncFunctionDef)):
                     m.funcs[n.name] = n
-                elif isinstance(n, ast.Assign) and len(n.targets) == 1 and isinstance(n.targets[0], ast.Name):
-                    m.assigns[n.targets[0].id] = n.value
+                elif isinstance(n, ast.Assign):
+                    for t_ in n.targets:                 # NAME = value, A = B = value, A, B = x, y
+                        if isinstance(t_, ast.Name):
+                            m.assigns[t_.id] = n.value
+                        elif isinstance(t_, (ast.Tuple, ast.List)) and isinstance(n.value, (ast.Tuple, ast.List)) and len(t_.elts) == len(n.value.elts):
+                            for x_, y_ in zip(t_.elts, n.value.elts):
+                                if isinstance(x_, ast.Name):
+                                    m.assigns[x_.id] = y_
+                elif isinstance(n, ast.AnnAssign) and isinstance(n.target, ast.Name) and n.value is not None:
+                    m.assigns[n.target.id] = n.value
 
     def _classes(self):
         for m in self.mods.values():
@@ -222,8 +230,16 @@ class Program:
                     ci.methods[n.name] = f
                 else:
                     ci.methods[n.name] = f
-            elif isinstance(n, ast.Assign) and len(n.targets) == 1 and isinstance(n.targets[0], ast.Name):
-                ci.class_assigns[n.targets[0].id] = n.value
+            elif isinstance(n, ast.Assign):
+                for t_ in n.targets:
+                    if isinstance(t_, ast.Name):
+                        ci.class_assigns[t_.id] = n.value
+                    elif isinstance(t_, (ast.Tuple, ast.List)) and isinstance(n.value, (ast.Tuple, ast.List)) and len(t_.elts) == len(n.value.elts):
+                        for x_, y_ in zip(t_.elts, n.value.elts):
+                            if isinstance(x_, ast.Name):
+                                ci.class_assigns[x_.id] = y_
+            elif isinstance(n, ast.AnnAssign) and isinstance(n.target, ast.Name) and n.value is not None:
+                ci.class_assigns[n.target.id] = n.value
 
     # ------------------------------------------------------------------ resolution
     def lookup(self, m, name, seen=()):
